@@ -12,10 +12,10 @@ from symrt import S
 import C01
 
 FILES = {
-    b'/p/mod/a.hpp': b'TOKEN_p_mod_a', b'/p/mod/sub/b.hpp': b'TOKEN_p_mod_sub_b', b'/p/mod/m': b'TOKEN_p_mod_m',
-    b'/p/alt/a.hpp': b'TOKEN_p_alt_a', b'/p/alt/only.hpp': b'TOKEN_p_alt_only', b'/p/alt/b': b'TOKEN_p_alt_b',
-    b'/p/core/a': b'TOKEN_p_core_a', b'/p/core/mod/a.hpp': b'TOKEN_p_core_mod_a', b'/p/core/b/a': b'TOKEN_p_core_b_a',
-    b'/p/mod2/a.hpp': b'SECRET_p_mod2_a', b'/p/secret.txt': b'SECRET_p_secret', b'/secret': b'SECRET_root', b'/p/modx': b'SECRET_modx',
+    b'/p/mod/a.hpp': b'trace__ "TOKEN_p_mod_a";', b'/p/mod/sub/b.hpp': b'trace__ "TOKEN_p_mod_sub_b";', b'/p/mod/m': b'trace__ "TOKEN_p_mod_m";',
+    b'/p/alt/a.hpp': b'trace__ "TOKEN_p_alt_a";', b'/p/alt/only.hpp': b'trace__ "TOKEN_p_alt_only";', b'/p/alt/b': b'trace__ "TOKEN_p_alt_b";',
+    b'/p/core/a': b'trace__ "TOKEN_p_core_a";', b'/p/core/mod/a.hpp': b'trace__ "TOKEN_p_core_mod_a";', b'/p/core/b/a': b'trace__ "TOKEN_p_core_b_a";',
+    b'/p/mod2/a.hpp': b'trace__ "SECRET_p_mod2_a";', b'/p/secret.txt': b'trace__ "SECRET_p_secret";', b'/secret': b'trace__ "SECRET_root";', b'/p/modx': b'trace__ "SECRET_modx";',
 }
 MAPPINGS = [(b'/p/mod', b'/x/mod'), (b'/p/alt', b'/x/mod'), (b'/p/core', b'/x')]      # nested prefixes; two roots for /x/mod, first wins
 ROOTS = [b'/p/mod', b'/p/alt', b'/p/core']
@@ -53,6 +53,8 @@ def ref_resolve(req, cur_virt):
         if virt == best and (phys + rem) in FILES: return phys + rem
     return None
 
+def token_of(path):
+    m = re.search(rb'"((?:TOKEN|SECRET)_\w+)"', FILES[path]); return m.group(1)
 def setup(h):
     rt.VFS.clear(); rt.VFS.update(FILES); rt.VFS_WRITES[:] = []
     vm = h.new_vm(); h.reset_obs()
@@ -95,20 +97,28 @@ FIXED = [  # (request, current index, expected physical file or None)
     (b'/p/mod/a.hpp', 0, b'/p/mod/a.hpp'), (b'/p/alt/only.hpp', 0, b'/p/alt/only.hpp'), (b'/p/core/b/a', 0, b'/p/core/b/a'),
     (b'sub/b.hpp', 1, b'/p/mod/sub/b.hpp'), (b'a.hpp', 1, b'/p/mod/a.hpp'), (b'../mod2/a.hpp', 1, None), (b'../secret.txt', 1, None), (b'../../secret', 1, None), (b'..\\mod2\\a.hpp', 1, None),
     (b'a', 2, b'/p/core/b/a'), (b'../a', 2, b'/p/core/a'), (b'../../secret.txt', 2, None),
+    # requests that name a directory (or nothing): not a file, so not found - never a read of the directory
+    (b'/x/mod', 0, 'DIR'), (b'/x/mod/', 0, 'DIR'), (b'/x/mod/sub', 0, 'DIR'), (b'', 0, 'DIR'), (b'.', 1, 'DIR'), (b'sub', 1, 'DIR'), (b'/p/mod', 0, 'DIR'), (b'/x', 0, 'DIR'), (b'..', 2, 'DIR'),
 ]
 def fixed_case(h, idx, via):
     req, ci, exp = FIXED[idx]
+    isdir = exp == 'DIR'
+    if isdir: exp = None
     def case():
         vm = setup(h); cp, cv = CURS[ci]
         what = 'request %r from %r via %s' % (req, cv, via)
         if via == 'get_info':
             g = h.get_info(vm, req, cp, cv)
             got = g[0] if g else None
-            if (got is None) != (exp is None) or (got is not None and norm(got) != exp): rt.record_violation('assert', '%s resolves to %r, expected %r' % (what, got, exp))
+            if isdir:
+                # the statement speaks about files; path resolution alone may name the mapped directory itself, but nothing outside the roots
+                if got is not None and not (inside_roots(got) or norm(got) in ROOTS): rt.record_violation('assert', '%s resolves to %r, which is outside every mapped physical directory' % (what, got))
+            elif (got is None) != (exp is None) or (got is not None and norm(got) != exp): rt.record_violation('assert', '%s resolves to %r, expected %r' % (what, got, exp))
         else:
-            if via == 'loadFile' and ci != 0: return dict(text='skip', n=0)
+            if via in ('loadFile', 'execVM') and ci != 0: return dict(text='skip', n=0)
             q = req.replace(b'"', b'""')
             if via == 'loadFile': code = b'trace__ (loadFile "' + q + b'");'
+            elif via == 'execVM': code = b'private _h = [] execVM "' + q + b'"; trace__ "started";'
             elif via == 'include': code = b'#include "' + req + b'"\n'
             exp2 = exp
             if via == 'include':
@@ -122,11 +132,18 @@ def fixed_case(h, idx, via):
                 got = h.traces[-1] if h.traces else None
                 want = FILES[exp] if exp else None
                 if want is None:
-                    if isinstance(got, bytes) and got.startswith((b'SECRET', b'TOKEN')): rt.record_violation('assert', '%s returned the content of a file (%r) although the request must be reported as not found' % (what, got))
+                    if isinstance(got, bytes) and (b'SECRET' in got or b'TOKEN' in got): rt.record_violation('assert', '%s returned the content of a file (%r) although the request must be reported as not found' % (what, got))
                 elif got != want: rt.record_violation('assert', '%s returned %r, expected the content %r of %r' % (what, got, want, exp))
+            elif via == 'execVM':
+                ran = [t for t in h.traces if isinstance(t, bytes) and t != b'started']
+                if exp is None:
+                    if ran: rt.record_violation('assert', '%s ran a file (%r) although the request must be reported as not found' % (what, ran))
+                elif ran != [token_of(exp)]: rt.record_violation('assert', '%s ran %r, expected exactly the code of %r (%r)' % (what, ran, exp, token_of(exp)))
             else:
                 text = b' '.join(str(l[2]).encode('latin1') for l in h.logs)
                 ok = r != -2
+                ran = [t for t in h.traces if isinstance(t, bytes)]
+                if exp2 is not None and ok and ran != [token_of(exp2)]: rt.record_violation('assert', '%s included %r, expected the content of %r (%r)' % (what, ran, exp2, token_of(exp2)))
                 if exp2 is None and ok: rt.record_violation('assert', '%s: the include succeeded although the file must not be found' % what)
                 if exp2 is not None and not ok: rt.record_violation('assert', '%s: the include failed (%r)' % (what, [l[2][:80] for l in h.errors()[:1]]))
         if rt.VFS_WRITES: rt.record_violation('assert', 'resolution wrote to the file system: %r' % rt.VFS_WRITES[:2])
@@ -153,8 +170,8 @@ def run(ctx):
             ob, recs = r
             for v in ob['violations']: v['trust_without_replay'] = True
             oblig.witness_check(ob, recs, lambda rr: rr['verdict'] == 'ok' and '-> b' in (rr.get('text') or ''), 'a request that resolves to a file'); obs.append(ob)
-    cases = [('f%d.%s' % (i, via), fixed_case(h, i, via)) for i in range(len(FIXED)) for via in ('get_info', 'loadFile', 'include')]
-    r = oblig.run('resolve.fixed', cases, ctx, funcs, '%d requests (plain, separator mixes, traversal attempts through virtual and physical paths, sibling directory whose name extends a mapped root, relative requests from files at depth 1-2) x {get_info, loadFile, #include}' % len(FIXED),
+    cases = [('f%d.%s' % (i, via), fixed_case(h, i, via)) for i in range(len(FIXED)) for via in ('get_info', 'loadFile', 'execVM', 'include')]
+    r = oblig.run('resolve.fixed', cases, ctx, funcs, '%d requests (plain, separator mixes, traversal attempts through virtual and physical paths, sibling directory whose name extends a mapped root, relative requests from files at depth 1-2) x {get_info, loadFile, execVM, #include}: the file read / run / included is the reference file' % len(FIXED),
                   assumptions=['file system = engine/vfs.py model'], case_timeout=1200, keyfn=key, step_limit=2_000_000_000, sample_fn=lambda rr: dict(request=rr.get('text')) if rr.get('text') else None)
     if r:
         ob, recs = r
